@@ -66,6 +66,14 @@ impl PrivKey {
             }
         }
     }
+    /// Position the salt counter of the installed cipher
+    pub fn verif_set_salt(&mut self, v: u64) {
+        match self {
+            PrivKey::NoPriv(_) => {}
+            PrivKey::Des(k) => k.verif_set_salt(v),
+            PrivKey::Aes128(k) => k.verif_set_salt(v),
+        }
+    }
 }
 
 impl PrivKey {
